@@ -2,6 +2,7 @@ package props
 
 import (
 	"fmt"
+	"runtime"
 
 	"github.com/akalin/gopar/gf2p16"
 
@@ -323,6 +324,7 @@ func c11Gen(g *core.Gen) {
 		g.Emit(&c11Case{Kind: "structured", N: n})
 	}
 	g.Emit(&c11Case{Kind: "times"})
+	g.Emit(&c11Case{Kind: "churn"})
 	// the same families with the SSSE3 dispatch flag forced off (Matrix row operations then use the scalar kernels)
 	g.Emit(&c11Case{Kind: "all", N: 2, Lo: 0, Hi: 1296, A: full, NoSSSE3: true})
 	for lo := int64(0); lo < 262144; lo += 16384 {
@@ -415,6 +417,31 @@ func c11Run(ci interface{}, r *core.Rec) {
 		}
 		r.AddStates(cnt)
 		r.Outcome(fmt.Sprintf("structured n=%d", n))
+		r.NontrivialCase()
+	case "churn":
+		// hundreds of short-lived matrices of one dimension, each dropped and collected before the next is built (so the
+		// next one may well be laid out where the last one was), alternately singular and non-singular: an answer
+		// remembered under anything but the matrix's contents comes back for the wrong matrix
+		cnt := 0
+		for _, n := range []int{16, 17, 24, 40} {
+			for round := 0; round < 120; round++ {
+				m := lin.New(n, n)
+				for i := 0; i < n; i++ {
+					for j := 0; j < n; j++ {
+						m[i][j] = gf16.Exp2(round*131 + i*17 + j*29 + i*j)
+					}
+				}
+				if round%3 == 2 {
+					copy(m[n-1], m[0]) // two equal rows: singular
+				}
+				c11CheckSquare(r, m, fmt.Sprintf("churn n=%d round %d", n, round))
+				cnt++
+				c11Kept = nil
+				runtime.GC()
+			}
+		}
+		r.AddStates(cnt)
+		r.Outcome("churn")
 		r.NontrivialCase()
 	case "times":
 		alpha := []uint16{0, 1, 2, 0xffff}
